@@ -343,8 +343,8 @@ impl Recorder {
             self.property,
             self.tier.name(),
             self.evaluations,
-            self.nontrivial.len(),
-            self.violations.len(),
+            self.nontrivial.len() as u64 + self.extra_nontrivial,
+            self.violations.len() as u64 + self.partial_violations,
             self.known_hits.len(),
             self.start.elapsed().as_secs_f64()
         );
